@@ -33,3 +33,31 @@ def mpbfl_bounds(f):
 def mpbfl_inF(fmt, x):
     xr = real_of(x)
     return mps_inF(fmt._mps_fmt, x) and (not x_finite(x) or xr._c == 0 or in_bounds(xr, fmt.neg_maxval, fmt.pos_maxval))
+
+
+# ---------------------------------------------------------------------------
+# ExpFormat(nbits, eoffset): the powers of two 2^k, emin <= k <= emax, and one NaN.  Word w < 2^nbits - 1 stands for
+# 2^(w - ebias), ebias = 2^(nbits-1) - 1 - eoffset; the all-ones word is the NaN.  So emin = -ebias and
+# emax = 2^nbits - 2 - ebias: the words 0 .. 2^nbits - 2 are the ordinals of the finite members.
+
+def exp_ebias(f):
+    return pow2(f.nbits - 1) - 1 - f.eoffset
+
+
+@invariant('fpy2.number.context.exponential:ExpFormat')
+def inv_ExpFormat(f):
+    """established by ExpFormat.__init__ (contract ExpFormat___init__)"""
+    return (f.nbits >= 1 and f._emin == -exp_ebias(f) and f._emax == pow2(f.nbits) - 2 - exp_ebias(f)
+            and f._mp_fmt.pmax == 1 and f._mp_fmt.enable_nan and f._mp_fmt.enable_inf)
+
+
+def is_pow2_c(c):
+    """c is a power of two (c > 0 with one significant digit)"""
+    return c > 0 and c == pow2(bl(c) - 1)
+
+
+def exp_inF(f, x):
+    """NaN, or a positive power of two with exponent in [emin, emax]; no zero, no infinity, nothing negative"""
+    xr = real_of(x)
+    return ite(x_isnan(x), True, ite(x_isinf(x), False,
+               is_pow2_c(xr._c) and not xr._s and f._emin <= e_of(xr) and e_of(xr) <= f._emax))
